@@ -5,7 +5,7 @@
    reserved-name flag) + the set of redeclared predefined names; descr_of_ts = TypeSystemSerializer;
    ts_of_descr order = TypeSystemDeserializer, `order` being what toposort_flatten returned; order_okb = the contract of
    toposort_flatten (every declared name once, a declared supertype before its subtypes); canon = types sorted by name. *)
-From Cassis Require Import Base Descr DescrProofs.
+From Cassis Require Import Base Descr DescrProofs DescrProofs2.
 
 (* Round trip.  For every well-formed type system (unique trimmed type names, closed references, no feature declared
    again along a supertype chain, a DocumentAnnotation) and every admissible creation order: reading what was written
@@ -73,6 +73,28 @@ Theorem C12_builtin_redeclared_differently_rejected : forall d order t b,
 Proof. exact builtin_differently_rejected. Qed.
 Print Assumptions C12_builtin_redeclared_differently_rejected.
 
+(* Loading preserves well-formedness.  What a well-formed descriptor (whose typeDescriptions all carry a name) loads to, in
+   any admissible order, is a well-formed type system: unique trimmed names, closed references, no final supertype, the
+   reserved-name invariant, no feature repeated along a supertype chain, only redeclarable names remembered, and a
+   DocumentAnnotation that the writer may leave out only when it is the default one.  (str.strip is idempotent.) *)
+Theorem C12_load_preserves_wf : forall d order s,
+  wf_descrb d = true -> named_descrb d = true -> order_okb order d = true ->
+  ts_of_descr order d = Ok s -> wf_tsb s = true.
+Proof. exact load_preserves_wf. Qed.
+Print Assumptions C12_load_preserves_wf.
+
+(* ... hence write . load . write . load = write . load ("the third emission is the second") is a theorem for EVERY
+   well-formed descriptor, in written form or not: the type system s1 it loads to is written as a descriptor that loads
+   again (in any admissible order o2), to a well-formed s2 that is written identically, with the content of s1 (an empty
+   description being an absent one). *)
+Theorem C12_reemit_fixpoint : forall d o1 s1 o2,
+  wf_descrb d = true -> named_descrb d = true -> order_okb o1 d = true -> ts_of_descr o1 d = Ok s1 ->
+  order_okb o2 (descr_of_ts s1) = true ->
+  exists s2, ts_of_descr o2 (descr_of_ts s1) = Ok s2 /\ descr_of_ts s2 = descr_of_ts s1 /\
+             wf_tsb s2 = true /\ canon s2 = canon (norm_ts s1).
+Proof. exact reemit_fixpoint. Qed.
+Print Assumptions C12_reemit_fixpoint.
+
 (* regression: the writer before commit fa385f5 moved an API-extended DocumentAnnotation on re-emission *)
 Theorem C12_reemit_docann_position_old_refuted :
   exists s order s', wf_tsb s = true /\ order_okb order (descr_of_ts_old s) = true /\
@@ -115,6 +137,8 @@ Example C12_premises_hold_descr :
   wf_descrb ex_descr = true /\ order_okb ["Top"; "a.B"; DOCANN; "z.B"] ex_descr = true
   /\ order_okb [DOCANN; "uima.cas.TOP"; "Top"; "a.B"; "z.B"] (rev ex_descr) = true.
 Proof. repeat split; vm_compute; reflexivity. Qed.
+Example C12_premises_hold_named : named_descrb ex_descr = true /\ named_descrb (descr_of_ts ex_ts) = true.
+Proof. split; vm_compute; reflexivity. Qed.
 
 (* a descriptor in written form *)
 Example C12_premises_hold_written :
